@@ -46,6 +46,10 @@ enum AdminEv {
     Op(Op),
     KillMigrationSource,
     KillMigrationDestination,
+    /// the proxy of the cluster's first master node stops answering
+    KillClusterMember,
+    /// a proxy of the world that the broker does not know registers (a spare arrives)
+    RegisterSpare,
 }
 
 #[derive(Clone, Debug)]
@@ -115,6 +119,23 @@ fn apply_admin(ex: &Exec, ev: &AdminEv) {
     match ev {
         AdminEv::Op(op) => {
             let _ = ex.sim.apply(op);
+        }
+        AdminEv::KillClusterMember => {
+            let victim = ex.sim.broker.broker.cluster("c1").and_then(|c| c.get_nodes().iter().find(|n| n.get_role() == undermoon::common::cluster::Role::Master).map(|n| n.get_proxy_address().to_string()));
+            if let Some(victim) = victim {
+                ex.sim.world.0.st.lock().unwrap().down.insert(victim.clone());
+                ex.st.lock().unwrap().killed.push(victim);
+            }
+        }
+        AdminEv::RegisterSpare => {
+            for (i, (addr, host, nodes)) in ex.sim.proxies.iter().enumerate() {
+                let known = futures::executor::block_on(ex.sim.broker.broker.svc.get_proxy_by_address(addr)).ok().flatten().is_some();
+                if !known {
+                    let p = serde_json::from_value(vh::clustersim::register_op(addr, host, nodes, i)).unwrap();
+                    let _ = futures::executor::block_on(ex.sim.broker.broker.svc.add_proxy(p));
+                    break;
+                }
+            }
         }
         AdminEv::KillMigrationSource | AdminEv::KillMigrationDestination => {
             if let Some((s, d)) = first_migration(&ex.sim) {
@@ -612,6 +633,13 @@ fn scripts(thorough: bool) -> Vec<Script> {
             step_ms: 10,
         },
     ];
+    v.push(Script {
+        name: "member-dies-without-spare-then-a-spare-registers",
+        init: vec![Op::RemoveProxy { addr: c("127.0.0.3:7000") }, Op::RemoveProxy { addr: c("127.0.0.3:7001") }, Op::AddCluster { name: c("c1"), n: 8 }],
+        events: vec![(0, AdminEv::KillClusterMember), (2, AdminEv::RegisterSpare)],
+        window: 4,
+        step_ms: 10,
+    });
     if thorough {
         v.push(Script {
             name: "destination-proxy-dies-during-migration",
